@@ -230,6 +230,9 @@ def judge_c02(spec, gs, tbs, inputs, diags, dumps, maps, tdiffs, byk, jobs, info
             if r.res == -1 and ex.ok:
                 # not a plain rejection: the evaluation of an accepted input was abandoned by an exception out of the value plumbing
                 viol(out, g, data, 0, 'accepted input: evaluation abandoned by %s after the calls %s' % (r.extra[:120], model.mask_positions(r.events)[-200:])); continue
+            if r.res == 1 and not ex.ok:
+                # a value was returned for an input that has no derivation tree at all
+                viol(out, g, data, 0, 'a result was returned although the input has no derivation (calls %s)' % model.mask_positions(r.events)[-200:]); continue
             if (r.res == 1) != ex.ok: C['acceptance_disagreements_left_to_C01'] += 1; continue
             got = model.mask_positions(_COPYEV.sub('', r.events)); want = model.mask_positions(ex.events)
             C['functor_calls_observed'] += got.count(';')
@@ -261,7 +264,10 @@ def judge_c09(spec, gs, tbs, inputs, diags, dumps, maps, tdiffs, byk, jobs, info
                 if opt not in exs: exs[opt] = model.expect(g, tb, data, skip_ws=opt[0], skip_nl=opt[1])
                 ex = exs[opt]
                 C['evaluations'] += 1
-                if (r.res == 1) != ex.ok: C['acceptance_disagreements_left_to_C01'] += 1; continue
+                if (r.res == 1) != ex.ok:
+                    # "returns an empty optional exactly when the input is not in the language" is part of this property
+                    viol(out, g, data, mode, 'parse %s but the input is %s the language; stream text %r' % ('returned a value' if r.res == 1 else 'returned nothing (%d %s)' % (r.res, r.extra[:60]), 'not in' if not ex.ok else 'in', r.stream[:120]))
+                    continue
                 kind = 'accepted' if ex.ok else ('lexical' if ex.res.lexerr is not None else 'syntax')
                 C['inputs_' + kind] += 1
                 if not ex.ok: out['distinct'].append(common.sha(g.key(), data)[:12])
